@@ -143,12 +143,13 @@ def _c06() -> SimEngine:
     prof = profile(p_cb=0.6, p_cb_wait=0.5, p_swallow=0.2, p_cleanup=0.15, p_worker_raise=0.15, p_cb_raise=0.05, p_embedded=0.3,
                    embedded_ops=["cancel", "cancel", "cancel", "cancel_group", "spawn", "flush", "gate"],
                    ops={"cancel": 9, "flush": 2.5, "cancel_group": 0.5, "spawn": 7, "tick": 7, "gate": 5, "stop": 0.5, "close": 0.3},
-                   cancel_refs=["run", "run", "run", "live", "stale", "never", "neg", "incb", "incb", "any", "self", "self"])
+                   cancel_refs=["run", "run", "run", "live", "stale", "never", "neg", "incb", "incb", "any", "self", "self", "frac"])
 
     def sw(tier: str):
         perts = []
         for refs in ([["run", 0]], [["run", 1], ["run", 0]], [["run", 0], ["run", 0]], [["run", 0], ["stale", 0]], [["stale", 0], ["run", 0]],
-                     [["run", 0], ["never", 0]], [["incb", 0], ["run", 0]], [["run", 0], ["neg", 0]], [["any", 0], ["any", 1], ["any", 2]]):
+                     [["run", 0], ["never", 0]], [["incb", 0], ["run", 0]], [["run", 0], ["neg", 0]], [["any", 0], ["any", 1], ["any", 2]],
+                     [["frac", 0]], [["run", 0], ["frac", 1]]):
             perts.append({"op": "cancel", "pool": 0, "refs": refs})
         cases, n = sweep_space(perts, max_tick=7, second={"op": "cancel", "pool": 0, "refs": [["run", 1]], "place": "inline"},
                                thin=10 if tier == "quick" else 1)
